@@ -634,6 +634,30 @@ public:
         Out.insert(X.funcId(FD) + "\t" + X.plainQN(FD));
       return true;
     }
+    bool VisitCXXThrowExpr(CXXThrowExpr *TE) {
+      // pseudo callee: "throw:<type>\t<type>\tthrow-std|throw-nonstd" (rethrow: type "")
+      std::string T, K = "throw-nonstd";
+      if (const Expr *Op = TE->getSubExpr()) {
+        QualType QT = Op->getType().getNonReferenceType().getUnqualifiedType();
+        T = X.typeStr(QT);
+        if (const CXXRecordDecl *RD = QT->getAsCXXRecordDecl()) {
+          if (RD->hasDefinition()) {
+            auto isStdExc = [](const CXXRecordDecl *D) {
+              return D->getQualifiedNameAsString() == "std::exception";
+            };
+            if (isStdExc(RD) || RD->forallBases([&](const CXXRecordDecl *) { return true; }) ) {
+              bool derived = isStdExc(RD);
+              RD->forallBases([&](const CXXRecordDecl *B) { if (isStdExc(B)) derived = true; return true; });
+              if (derived) K = "throw-std";
+            }
+          }
+        }
+      } else {
+        K = "rethrow";
+      }
+      Out.insert("throw:" + T + "\t" + T + "\t" + K);
+      return true;
+    }
     bool VisitDeclRefExpr(DeclRefExpr *DRE) {
       // address-taken functions are potential indirect callees
       if (auto *FD = dyn_cast<FunctionDecl>(DRE->getDecl()))
